@@ -1,3 +1,4 @@
+import TplModel.Generated.Facts
 import TplModel.Sys.Reload
 import TplModel.Proofs.Reload
 /-! # C18 — the HTML renderer serves every request from the most recent successfully built template set
@@ -176,5 +177,9 @@ example : ((run false (.ok A) hist).map Out.ctSet) = [true, false, false, false,
 example : (run true (.ok A) hist)[0]? = some (.request .buildErr true) := by decide
 example : (Out.request .buildErr true).ctSet = true :=
   (content_type_only_if_unset true (.ok A) hist 0 (by decide) _ (by decide)).2 ⟨11, .fail, rfl⟩
+
+
+/-- tie to the code: render.go uses a sync/atomic primitive for the manager shared by Reload and requests -/
+theorem manager_field_synchronised : Facts.renderUsesSync = true := by decide
 
 end C18
